@@ -11,7 +11,7 @@ ID = "C16"
 COQ_PROPERTY_FILE = "Properties/C16.v"
 COQ_DEPS = ["Common/ListX.v", "Common/ObsHash.v", "Generated/Tables.v", "Model/Signals.v", "Proofs/SignalsProofs.v",
             "Proofs/SignalsBridge.v"]
-COQ_IMPORTS = "From Mesa Require Import Generated.Tables Model.Signals."
+COQ_IMPORTS = "From Mesa Require Import Common.ListX Generated.Tables Model.Signals."
 COQ_CASE_TYPE = "anycase2"
 COQ_RUN = "run_any2"
 TABLE_CONSTRUCTS = ["sig_tables", "dg_shadowing", "sig_observe_code", "sig_unobserve_code", "sig_clear_code",
@@ -23,7 +23,7 @@ SOURCE_FUNCS = [(SIG + "mesa_signal.py", "BaseObservable.__set__"), (SIG + "mesa
                 (SIG + "mesa_signal.py", "HasObservables"), (SIG + "mesa_signal.py", "descriptor_generator"),
                 (SIG + "mesa_signal.py", "All"), (SIG + "observable_collections.py", "*"), (SIG + "signals_util.py", "*")]
 ENUM_ALWAYS = False
-RULE = ("four streams per run.  (1) model histories: one HasObservables class with 2-4 Observable / ObservableList attributes, built as "
+RULE = ("five streams per run.  (0) SCALE: 257 / 300 handlers (model-checked) and 513 ... 2049 handlers (implementation + oracle) subscribed to one (observable, signal type) list through every form (name / All x type / All), functions, lambdas, functools.partial objects, bound methods of distinct objects and 40 bound methods of one object, a share dying in between, unobserve / clear at that scale; an ObservableList of 300 (1030) items under every list operation with indices crossing 255 / 256 / 257; 8-16 observables on 6-12 objects.   (1) model histories: one HasObservables class with 2-4 Observable / ObservableList attributes, built as "
         "Base/Sub (attributes inherited, overridden by the other kind or by / over a plain attribute), as a three-level chain, a diamond, or with "
         "plain mixins before / after HasObservables in the bases and HasObservables in the middle of a diamond; 1-2 instances; 2-5 handlers "
         "(functions and bound methods; bound methods of one listener die together); <= 30 operations: observe / unobserve / "
@@ -313,6 +313,101 @@ def _gen_history(rng, nops, dup_stream=False, force_mixed=False):
     return case
 
 
+SCALE_FORMS = [["all", "all"], [1, "all"], [0, "all"], ["all", 1], [0, 1], [1, 5]]
+
+
+def _scale_handlers(n):
+    """ids 1..n: the first min(40, n // 4) are methods of ONE listener (group 1), the rest cycle through function / bound method of
+    its own object / lambda / functools.partial, each its own group (gid = 1000 + hid)"""
+    one = min(40, n // 4)
+    hs = [[h, "m", 1] for h in range(1, one + 1)]
+    for h in range(one + 1, n + 1):
+        hs.append([h, "fmlp"[h % 4], 1000 + h])
+    return hs, one
+
+
+def _gen_scale_subs(rng, n, form, oracle_only=False):
+    """hundreds of subscriptions to one (observable, signal type) list, crossing 255/256/257/...: subscribed through `form`, a share of
+    the handlers dying in between, probes, unobserve at scale, the 40 bound methods of one object dying together, clear"""
+    hs, one = _scale_handlers(n)
+    decl = [{"kind": "obs", "where": "sub", "override": None, "fallback": None},
+            {"kind": "list", "where": "base", "override": None, "fallback": None}]
+    nm, ty = form
+    probe = [["assign", 0, 0, 5], ["lop", 0, 1, "append", 7], ["lop", 0, 1, "setitem", 0, 9], ["lop", 0, 1, "pop", None]]
+    ops = []
+    for h in range(1, n + 1):
+        ops.append(["observe", 0, nm, ty, h])
+        if h == n // 2:
+            ops += [["kill", 1000 + k] for k in range(one + 1, n // 2, 9)]
+            ops += probe[:2]
+    ops += probe
+    step = rng.choice([3, 5])
+    for h in range(one + 1, n + 1, step):
+        ops.append(["unobserve", 0] + (form if h % 2 else ["all", "all"]) + [h])
+    ops += probe + [["kill", 1]] + probe + [["clear", 0, 1], ["observe", 0, nm, ty, n], ["observe", 0, "all", "all", n - 1]] + probe
+    c = {"decl": decl, "extra": [], "init": [[0, [1, 2, 3]]], "handlers": hs, "dup": True, "ops": ops, "scale": "subs"}
+    if oracle_only:
+        c["oracle_only"] = True
+    return c
+
+
+def _gen_scale_list(rng, n):
+    """an ObservableList with hundreds of items and every list operation, indices crossing 255/256/257"""
+    decl = [{"kind": "list", "where": "sub", "override": None, "fallback": None}]
+    init = [[[(7 * i + 3) % 11 for i in range(n)]]]
+    ops = [["observe", 0, "all", "all", 1], ["observe", 0, 0, "all", 2], ["observe", 0, 0, 2, 3],
+           ["lop", 0, 0, "setitem", 256, 5], ["lop", 0, 0, "setitem", -1, 6], ["lop", 0, 0, "setitem", n, 1], ["lop", 0, 0, "delitem", 255],
+           ["lop", 0, 0, "insert", 257, 8], ["lop", 0, 0, "insert", -300, 8], ["lop", 0, 0, "pop", 256], ["lop", 0, 0, "pop", None],
+           ["lop", 0, 0, "remove", 10], ["lop", 0, 0, "remove", 99], ["lop", 0, 0, "setslice", [250, 262, None], [1, 2, 3]],
+           ["lop", 0, 0, "setslice", [None, None, 128], [4, 4, 4]], ["lop", 0, 0, "delslice", [None, None, 2]],
+           ["lop", 0, 0, "delslice", [-1, 100, -3]], ["lop", 0, 0, "extend", list(range(10))], ["lop", 0, 0, "extendself"],
+           ["lop", 0, 0, "iadd", [1, 2]], ["lop", 0, 0, "reverse"], ["kill", 2], ["lop", 0, 0, "setitem", 128, 0],
+           ["assignlist", 0, 0, list(range(n + 1))], ["lop", 0, 0, "clear"], ["lop", 0, 0, "append", 1]]
+    return {"decl": decl, "extra": [], "init": init, "handlers": [[1, "f", 1], [2, "m", 2], [3, "p", 3]], "dup": True, "ops": ops,
+            "scale": "list"}
+
+
+def _gen_scale_wide(rng, n_obs, n_inst, n_handlers, nops):
+    """many observables per object and many objects: a random history over them"""
+    decl = [{"kind": "obs" if i % 2 else "list", "where": rng.choice(["base", "sub"]), "override": None, "fallback": None}
+            for i in range(n_obs)]
+    init = [[(rng.randint(0, 9) if d["kind"] == "obs" else [rng.randint(0, 5) for _ in range(3)]) for d in decl] for _ in range(n_inst)]
+    hs = [[h, "fmlp"[h % 4], h] for h in range(1, n_handlers + 1)]
+    ops = []
+    for _ in range(nops):
+        i, n = rng.randrange(n_inst), rng.randrange(n_obs)
+        r = rng.random()
+        if r < 0.4:
+            ops.append(["observe", i, rng.choice(["all", n, n]), rng.choice(["all", 1, rng.choice(EMITS[decl[n]["kind"]])]), rng.randint(1, n_handlers)])
+        elif r < 0.5:
+            ops.append(["unobserve", i, rng.choice(["all", n]), rng.choice(["all", 1]), rng.randint(1, n_handlers)])
+        elif r < 0.53:
+            ops.append(["kill", rng.randint(1, n_handlers)])
+        elif r < 0.55:
+            ops.append(["clear", i, rng.choice(["all", n])])
+        elif decl[n]["kind"] == "obs":
+            ops.append(["assign", i, n, rng.randint(0, 9)])
+        else:
+            ops.append(["lop", i, n] + _rand_lop(rng, None))
+    return {"decl": decl, "extra": [], "init": init, "handlers": hs, "dup": True, "ops": ops, "scale": "wide"}
+
+
+def _scale_cases(rng, tier, broken=False):
+    cases = [_gen_scale_subs(rng, 257, ["all", "all"]),
+             _gen_scale_subs(rng, 300, [1, "all"]),
+             _gen_scale_subs(rng, 513, [0, "all"], oracle_only=True),
+             _gen_scale_list(rng, 300),
+             _gen_scale_wide(rng, 8, 6, 40, 60)]
+    if tier == "thorough" or broken:
+        for n in (255, 256, 258, 512):
+            for form in SCALE_FORMS:
+                cases.append(_gen_scale_subs(rng, n, form, oracle_only=True))
+        cases += [_gen_scale_subs(rng, 1025, ["all", "all"], oracle_only=True), _gen_scale_subs(rng, 1025, [1, 5], oracle_only=True),
+                  _gen_scale_subs(rng, 2049, [0, "all"], oracle_only=True), _gen_scale_list(rng, 1030),
+                  _gen_scale_wide(rng, 16, 12, 64, 120)]
+    return cases
+
+
 def _gen_reentrant(rng):
     """handlers that observe / unobserve on the (name, type) being notified - outside the property's quantifier:
     correspondence with Model/Signals.v:notify_re only, the oracle is silent on these"""
@@ -352,6 +447,7 @@ def gen_cases(rng, tier):
     cases = [_gen_reentrant(rng) for _ in range(40 if tier == "quick" else 400)]
     cases += [_gen_reentrant_assign(rng) for _ in range(40 if tier == "quick" else 400)]
     cases += [_gen_hx(rng) for _ in range(120 if tier == "quick" else 1500)]
+    cases = _scale_cases(rng, tier) + cases
     # the corner cases the quantifier names, always: All in either position on mixed classes, both declaration orders
     for order in (("obs", "list"), ("list", "obs")):
         for where in (("sub", "sub"), ("base", "sub"), ("sub", "base")):
@@ -375,6 +471,11 @@ def enumerate_cases(tier, broken=False):
     """targeted sweep: every class of two attributes over {Observable, ObservableList}^2 x declaration
     place, every observe(nm, ty) and every unobserve(nm', ty') with nm in {All, 0, 1, unknown},
     ty in {All, the five types, an unknown one}, each followed by a probe touching every signal type."""
+    import random
+
+    for c in _scale_cases(random.Random(4242), tier, broken=True):
+        c["oracle_only"] = True
+        yield c
     names = ["all", 0, 1, UNKNOWN_NAME]
     types = ["all", 1, 2, 3, 4, 5, BOGUS_TYPE]
     for kinds in itertools.product(("obs", "list"), repeat=2):
@@ -638,18 +739,25 @@ def _freeze(signal):
 
 
 class _Listener:
+    """an object whose bound methods m0, m1, ... are handlers (they die together with it)"""
+
     def __init__(self, log):
         self.log = log
         self.hids = {}
 
-    def m0(self, signal):
-        self.log.append((self.hids["m0"], _freeze(signal)))
+    def _called(self, m, signal):
+        self.log.append((self.hids[m], _freeze(signal)))
 
-    def m1(self, signal):
-        self.log.append((self.hids["m1"], _freeze(signal)))
 
-    def m2(self, signal):
-        self.log.append((self.hids["m2"], _freeze(signal)))
+def _listener_method(m):
+    def meth(self, signal):
+        self._called(m, signal)
+    meth.__name__ = m
+    return meth
+
+
+for _j in range(64):
+    setattr(_Listener, f"m{_j}", _listener_method(f"m{_j}"))
 
 
 def _mk_fn(hid, log):
@@ -986,8 +1094,13 @@ def _run_reentrant(case):
     script = {x[0]: tuple(x[1:]) for x in case["re"]["script"]}
     ids = set(case["re"]["subs"]) | set(script) | {v[1] for v in script.values() if v[0] in ("obs", "unobs")}
 
+    class Runaway(Exception):
+        """the implementation under test keeps calling handlers: stop the history instead of exhausting memory"""
+
     def mk(h):
         def f(signal):
+            if len(calls) > 20000:
+                raise Runaway
             if with_assign:
                 calls.extend([h] + [v if _is_int(v) else -99 for v in (signal.old, signal.new)])
             else:
@@ -1012,7 +1125,11 @@ def _run_reentrant(case):
         if sum(1 for _ in obj.subscribers["x"]["change"]) > 150:
             obs.append([-3])
             break
-        obj.x = i + 1
+        try:
+            obj.x = i + 1
+        except (Runaway, RecursionError):
+            obs.append([-3])
+            break
         reg = [r()._hid for r in obj.subscribers["x"]["change"] if r() is not None]
         obs.append(list(calls) + [-7] + reg + ([-6, obj._x if _is_int(obj._x) else -99] if with_assign else []))
     return {"obs": obs, "failures": []}
@@ -1053,8 +1170,15 @@ def run_impl(case):
     # handlers: functions and bound methods; holders[gid] is the only strong reference
     holders, weak, how = {}, {}, {}
     for hid, kind, gid in case["handlers"]:
-        if kind == "f":
+        if kind in ("f", "l", "p"):
             f = _mk_fn(hid, log)
+            if kind == "l":
+                f = (lambda g: (lambda signal: g(signal)))(f)       # a lambda
+                f._hid = hid
+            elif kind == "p":
+                import functools
+                f = functools.partial(f)                              # a functools.partial object (weakly referenceable)
+                f._hid = hid
             holders[gid] = f
             weak[gid] = weakref.ref(f)
             how[hid] = (gid, None)
@@ -1090,7 +1214,12 @@ def run_impl(case):
         """live subscribers per (name, type) as the implementation holds them"""
         out = {}
         for nm, per in list(objs[i].subscribers.items()):
+            unknown = 0
             for ty, refs in list(per.items()):
+                if ty not in TYPE_CODE:
+                    unknown += 1
+                    if unknown > 1:          # keys that are no signal type: the first one is shown (as type 98), the rest would only cost time
+                        continue
                 hs = []
                 for ref in refs:
                     h = ref()
@@ -1111,8 +1240,12 @@ def run_impl(case):
                 out.append(None if v is _MISSING else list(v))
         return out
 
+    light = bool(case.get("oracle_only"))
+
     def view():
         out = []
+        if light:                 # implementation + oracle only: nothing is compared with the model
+            return out
         for i in range(ninst):
             reg = registry(i)
             for key in sorted(reg):
@@ -1136,15 +1269,34 @@ def run_impl(case):
     copy = [[(list(v) if isinstance(v, list) else v) for v in row] for row in case["init"]]   # the replaying listener
     obs, failures = [], []
 
+    nfail = {}
+
     def fail(key, opi, what):
-        failures.append({"key": key, "op": opi, "what": what})
+        nfail[key] = nfail.get(key, 0) + 1
+        if nfail[key] <= 5:              # one defect is reported a few times per history, not once per operation
+            failures.append({"key": key, "op": opi, "what": what[:3000]})
+
+    def reg_diff(got, exp):
+        out = []
+        for key in sorted(set(got) | set(exp)):
+            g, e = got.get(key, []), exp.get(key, [])
+            if g != e:
+                if len(g) + len(e) <= 24:
+                    out.append(f"{key}: {g}, the history implies {e}")
+                else:
+                    p = next((q for q, (a, b) in enumerate(zip(g, e)) if a != b), min(len(g), len(e)))
+                    out.append(f"{key}: {len(g)} handlers, the history implies {len(e)}; first difference at position {p} "
+                               f"({g[p:p + 3]} vs {e[p:p + 3]})")
+            if len(out) >= 4:
+                break
+        return "; ".join(out)
 
     def check_registry(opi, i, site, op):
         exp = orc.live_view(i, alive)
         got = registry(i)
         if got != exp:
             fail(f"C16/{site}/registry-wrong", opi,
-                 f"after {op} the live subscriptions of instance {i} are {got}; the history implies {exp} "
+                 f"after {op} the live subscriptions of instance {i} differ: {reg_diff(got, exp)} "
                  f"((name index, type code) -> handler ids in subscription order; types {TYPE_NAME})")
             # resynchronise so that one defect is reported once
             orc.ledger[i] = {key: list(v) for key, v in got.items()}
@@ -1164,8 +1316,8 @@ def run_impl(case):
                 if h not in alive:
                     status = [-2]
                 else:
-                    before = registry(i)
                     keys = orc.observe_keys(nm, ty)
+                    before = registry(i) if (keys is None or not light) else None     # at scale only where a rejection is expected
                     raised = None
                     try:
                         if opi % 3 == 1:       # the same call spelled with keywords
@@ -1184,7 +1336,7 @@ def run_impl(case):
                             orc.ledger[i] = {key: list(v) for key, v in registry(i).items()}
                         elif registry(i) != before:
                             what = (f"{op}: observe raised ValueError ({raised}) but changed the subscriptions of instance {i} "
-                                    f"from {before} to {registry(i)}")
+                                    f"({reg_diff(registry(i), before)})")
                             fail("C16/observe/rejected-but-subscribed", opi, what)
                             fail("C18/signals/observe", opi, what)
                             orc.ledger[i] = {key: list(v) for key, v in registry(i).items()}
@@ -1194,8 +1346,8 @@ def run_impl(case):
                             key = "C16/observe/overridden-observable-types" if over else "C16/observe/valid-subscription-rejected"
                             what = (f"{op}: every requested (name, type) exists ({[(n, TYPE_NAME[t]) for n, t in keys]}) but observe raised ValueError: {raised}")
                             fail(key, opi, what)
-                            if registry(i) != before:
-                                fail("C18/signals/observe", opi, what + f"; and the subscriptions changed from {before} to {registry(i)}")
+                            if before is not None and registry(i) != before:
+                                fail("C18/signals/observe", opi, what + f"; and the subscriptions changed: {reg_diff(registry(i), before)}")
                             orc.ledger[i] = {key2: list(v) for key2, v in registry(i).items()}
                         else:
                             orc.spec_observe(i, nm, ty, h)
@@ -1251,8 +1403,8 @@ def run_impl(case):
         ds = []
         for hid, sig in log:
             ds += [hid] + enc_signal(sig)
-        obs.append(status + _enc_val(ret) + [len(log)] + ds + [-7] + view())
-    return {"obs": obs, "failures": failures}
+        obs.append(status + _enc_val(ret) + [len(log)] + (ds if not light else []) + [-7] + view())
+    return {"obs": obs, "failures": failures, "model": not light}
 
 
 def _mutate(case, objs, shadow, copy, orc, alive, op, opi, i, n, log, emitted, fail, enc_signal, registry, values):
@@ -1515,26 +1667,64 @@ def _coq_plain(case):
     groups = {}
     for hid, _, gid in case["handlers"]:
         groups.setdefault(gid, []).append(hid)
-    ops = []
-    for op in case["ops"]:
+    def one(op):
         k = op[0]
         if k == "observe":
-            ops.append(f"Observe {L.z(op[1])} {_target(op[2])} {_tsel(op[3])} {L.z(op[4])}")
-        elif k == "unobserve":
-            ops.append(f"Unobserve {L.z(op[1])} {_target(op[2])} {_tsel(op[3])} {L.z(op[4])}")
-        elif k == "clear":
-            ops.append(f"ClearAll {L.z(op[1])} {_target(op[2])}")
-        elif k == "assign":
-            ops.append(f"Assign {L.z(op[1])} {L.z(op[2])} {L.z(op[3])}")
-        elif k == "assignlist":
-            ops.append(f"AssignList {L.z(op[1])} {L.z(op[2])} {L.zlist(op[3])}")
-        elif k == "lop":
-            ops.append(f"ListOp {L.z(op[1])} {L.z(op[2])} {_lop(op[3:])}")
-        elif k == "kill":
-            ops.append(f"Kill {L.zlist(groups.get(op[1], []))}")
-        else:
-            raise ValueError(k)
-    return f"{{| c_mro := {_mro(case)}; c_vals := {insts}; c_ops := {L.lst(ops)} |}}"
+            return f"Observe {L.z(op[1])} {_target(op[2])} {_tsel(op[3])} {L.z(op[4])}"
+        if k == "unobserve":
+            return f"Unobserve {L.z(op[1])} {_target(op[2])} {_tsel(op[3])} {L.z(op[4])}"
+        if k == "clear":
+            return f"ClearAll {L.z(op[1])} {_target(op[2])}"
+        if k == "assign":
+            return f"Assign {L.z(op[1])} {L.z(op[2])} {L.z(op[3])}"
+        if k == "assignlist":
+            return f"AssignList {L.z(op[1])} {L.z(op[2])} {L.zlist(op[3])}"
+        if k == "lop":
+            return f"ListOp {L.z(op[1])} {L.z(op[2])} {_lop(op[3:])}"
+        if k == "kill":
+            return f"Kill {L.zlist(groups.get(op[1], []))}"
+        raise ValueError(k)
+
+    # runs of subscriptions / deaths of consecutive handlers are printed as  map (fun k => ...) (zrange a b)
+    allops = case["ops"]
+    segs, plain, j = [], [], 0
+
+    def flush():
+        if plain:
+            segs.append(L.lst(list(plain)))
+            del plain[:]
+    while j < len(allops):
+        op = allops[j]
+        e = j
+        if op[0] in ("observe", "unobserve"):
+            while e + 1 < len(allops) and allops[e + 1][:4] == op[:4] and allops[e + 1][4] == allops[e][4] + 1:
+                e += 1
+            if e - j >= 3:
+                flush()
+                ctor = "Observe" if op[0] == "observe" else "Unobserve"
+                segs.append(f"(map (fun k => {ctor} {L.z(op[1])} {_target(op[2])} {_tsel(op[3])} k) (zrange {L.z(op[4])} {L.z(allops[e][4])}))")
+                j = e + 1
+                continue
+        if op[0] == "kill" and len(groups.get(op[1], [])) == 1 and j + 2 < len(allops):
+            h0 = groups[op[1]][0]
+            step = None
+            while e + 1 < len(allops) and allops[e + 1][0] == "kill" and len(groups.get(allops[e + 1][1], [])) == 1:
+                d = groups[allops[e + 1][1]][0] - groups[allops[e][1]][0]
+                if step is None and d >= 1:
+                    step = d
+                if d != step:
+                    break
+                e += 1
+            if e - j >= 3:
+                flush()
+                segs.append(f"(map (fun k => Kill [{L.z(h0)} + {step} * k]) (zrange 0 {e - j}))")
+                j = e + 1
+                continue
+        plain.append(one(op))
+        j += 1
+    flush()
+    ops_text = "(" + " ++ ".join(segs) + ")" if segs else "[]"
+    return f"{{| c_mro := {_mro(case)}; c_vals := {insts}; c_ops := {ops_text} |}}"
 
 
 def op_kinds(case):
